@@ -13,7 +13,7 @@ import (
 func init() {
 	register("C16", &propDef{
 		Title: "Pack output depends only on the tree and the options",
-		Rules: []func(*Checker){ruleC16Globals, ruleGlobalAddrNotShared("C16.globaladdr"), rulePackerWriters("C16.packer"), ruleC16ProcState, ruleC16Readlink, ruleC16Nondet, ruleC16CleanRoot, ruleRootLink("C16.rootlink"), ruleC16Spelled, ruleWalkingListResolved("C16.walkinglist"),
+		Rules: []func(*Checker){ruleC16Globals, ruleGlobalAddrNotShared("C16.globaladdr"), rulePackerWriters("C16.packer"), ruleC16ProcState, ruleC16Readlink, ruleC16Nondet, ruleC16CleanRoot, ruleRootLink("C16.rootlink"), ruleC16Spelled, ruleWalkingListResolved("C16.walkinglist"), ruleSourceAsGivenOnlyFollowed("C16.asgiven"),
 			aliasRuleFiltered(ruleC04Accept2("C02.links"), "C02.links", "C16.spelledalike", 1, func(o Oblig) bool { return strings.Contains(o.Key, "spelled alike") }),
 			// a directory copied in for a link is walked under the name its entries are made relative to: walked under
 			// another spelling of it (resolved, cleaned) the entries' names depend on how the path to it is spelled
